@@ -78,6 +78,17 @@ def gen_c16(tier, rng):
         yield ('H1-id-len', 's9_hash1 %s %s' % (hx(idb), hid), None)
         if ln % 7 == 0:
             yield ('H2', 's9_hash2 %s %s' % (hx(idb), hx(rb(rng, 384))), None)
+    # master keys crafted so that the extraction scalar t2 = k (H1 + k)^-1 is a chosen value near the group order / small:
+    # k = t2 H1 (1 - t2)^-1  (the fixed-base multiplications then run on N - 74, N - 10, N - 1, 2, ...)
+    for kind, hid in (('sign', 1), ('enc', 3), ('exch', 2)):
+        idb = rng.choice([b'Alice', b'Bob', rb(rng, 7)])
+        h1 = S.H1(idb, hid)
+        for t2 in (N - 74, N - 10, N - 1, N - 2, N - 37, N - 64, 2, 3, 1 << 64, 1 << 128):
+            if (1 - t2) % N == 0:
+                continue
+            k_ = t2 * h1 % N * pow((1 - t2) % N, -1, N) % N
+            if 1 <= k_ <= N - 1 and (h1 + k_) % N:
+                yield ('extract-scalar-target', 's9_extract %s %s %s' % (kind, H(k_), hx(idb)), None)
     # H1 / extraction for a long identity and then SHORTER ones on one thread (a reused scratch buffer must not leak its tail)
     long_id, mid_id, short_id = rb(rng, 40), rb(rng, 11), b'Bob'
     yield ('H1-long-then-shorter-history', 'seq s9_hash1 %s 01 ; %s 01 ; %s 01 ; %s 03 ; %s 01' % (hx(long_id), hx(mid_id), hx(short_id), hx(long_id[:5]), hx(short_id)), None)
@@ -262,6 +273,12 @@ def gen_c13(tier, rng):
         yield ('g2-eq-shared-y', 'g2eq %s %s sharey' % (S.g2_jac(A, z1), S.g2_jac((S.f2scal(w_, A[0]), A[1]), z2)), None)
         yield ('g2-eq-shared-nothing', 'g2eq %s %s' % (S.g2_jac(A, z1), S.g2_jac((S.f2scal(w_, A[0]), S.f2neg(A[1])), z2)), None)
         yield ('g2-raw', 'g2_raw add %s %s' % (S.g2_jac(A, z1), S.g2_jac(B, z2)), None)
+    for j in (range(1, 201) if tier == 'thorough' else list(range(1, 80, 3)) + [74, 10, 37, 64, 128]):
+        yield ('g1-gmul-near-order', 'g1 gmul %s' % H(N - j), None)
+        if j % 2 == 0 or tier == 'thorough':
+            yield ('g1-mul-near-order', 'g1 mul %s %s' % (S.g1_jac(S.P1, 1), H(N - j)), None)
+    for j in (1, 2, 3, 10, 74):
+        yield ('g2-mul-near-order', 'g2 gmul %s' % H(N - j), None)
     for op_ in ('dbl', 'neg', 'affine', 'bytes', 'oncurve'):
         yield ('g1-infinity-unary', 'g1 %s %s' % (op_, S.g1_jac(None, 1)), None)
     for k in [0, 1, 2, 3, N - 1, N, N + 1, rng.getrandbits(256)]:
@@ -294,6 +311,8 @@ def gen_c12(tier, rng):
     yield ('pairing-history', 'seq pairing %s %s ; %s %s ; %s %s ; %s %s ; %s %s' % (q1, p1, q1neg, p1, q1, p1b, q1w, p1b, q1, p1), None)
     yield ('pairing-history', 'seq pairing %s %s ; %s %s ; %s %s' % (S.g2_jac(S.P2, (1, 0)), S.g1_jac(S.P1, 1), S.g2_jac(S.g2_neg(S.P2), (P - 1, 0)), S.g1_jac(S.P1, 1),
            S.g2_jac(S.P2, (1, 0)), S.g1_jac(S.g1_neg(S.P1), P - 1)), None)
+    Bn = S.g2_neg(B)
+    yield ('pairing-history', 'seq pairing %s %s ; %s %s ; %s %s' % (S.g2_jac(B, (1, 0)), p1b, S.g2_jac(Bn, (1, 0)), p1b, S.g2_jac(B, (1, 0)), p1b), None)
     yield ('pairing-generators', 'pairing %s %s' % (S.g2_jac(S.P2, (1, 0)), S.g1_jac(S.P1, 1)), None)
     yield ('pairing-Q-infinity', 'pairing %s %s' % (S.g2_jac(None, (1, 0)), S.g1_jac(S.P1, 1)), None)
     yield ('pairing-P-infinity', 'pairing %s %s' % (S.g2_jac(S.P2, (1, 0)), S.g1_jac(None, 1)), None)
@@ -346,6 +365,10 @@ def gen_c09(tier, rng):
             if ok:
                 yield ('crafted-master ' + name.split(' ')[0], 's9_sv %s %s %s %s' % (H(k), hx(idb), hx(b'message'), good_r(rng)), None)
                 yield ('crafted-master-sign ' + name.split(' ')[0], 's9_sign %s %s %s %s' % (H(k), hx(idb), hx(b'message'), good_r(rng)), None)
+    # two signing domains with OPPOSITE master public keys (ks and N - ks) used alternately on one thread
+    ks_ = rs(rng)
+    yield ('opposite-master-keys-history', 'seq s9_sv %s %s %s %s ; %s %s %s %s ; %s %s %s %s' % (
+        H(ks_), hx(b'Alice'), hx(b'm1'), good_r(rng), H(N - ks_), hx(b'Alice'), hx(b'm2'), good_r(rng), H(ks_), hx(b'Bob'), hx(b'm3'), good_r(rng)), None)
     # retry branch l = 0 cannot be constructed without a hash preimage: documented as not constructible
     yield ('out-of-range-candidates', 's9_sign %s %s %s %s' % (H(rs(rng)), hx(b'Alice'), hx(b'm'), ','.join(['00' * 32, H(N), 'ff' * 32, good_r(rng)])), None)
 
@@ -445,6 +468,12 @@ def gen_c17(tier, rng):
         for name, k, ok in crafted_masters(rng, who, 2):
             if ok:
                 yield ('crafted-master ' + name.split(' ')[0], 's9_exch %s %s %s 16 %s %s -' % (H(k), hx(b'Alice'), hx(b'Bob'), good_r(rng), good_r(rng)), None)
+    # key lengths beyond 255 KDF blocks (the 32-bit counter must carry into its second byte) and far-away blocks of the KDF itself
+    for klen in ((8160, 8161, 8200, 20000) if tier == 'thorough' else (8161, 8200)):
+        yield ('klen>8160', 's9_exch %s %s %s %d %s %s -' % (H(rs(rng)), hx(b'Alice'), hx(b'Bob'), klen, good_r(rng), good_r(rng)), None)
+    zz = rb(rng, 70)
+    for blk in (1, 255, 256, 257, 512, 65535, 65536, 65537):
+        yield ('kdf-far-block', 's9_kdf_block %s %d' % (hx(zz), blk), None)
     # the master public key held in AFFINE form (as after decoding it from octets): mixed-coordinate paths of Q = [H1]P1 + Ppub-e
     yield ('affine-Ppub', 's9_exch aff:%s %s %s 16 %s %s -' % (H(rs(rng)), hx(b'Alice'), hx(b'Bob'), good_r(rng), good_r(rng)), None)
     for who in (b'Alice', b'Bob'):
@@ -484,6 +513,7 @@ def gen_c14_sm9(tier, rng):
     yield ('sm9-sampler-skips-allowed', 's9_keygen enc %s,%s' % (H(N - 1), good_r(rng)), None)
     yield ('sm9-sampler-skips-allowed', 's9_keygen enc %s,%s' % (H(5 << 64), good_r(rng)), None)
     n_ = 1200 if tier == 'thorough' else 200
+    yield ('frozen-sm9-rng-threads', 's9_rngthreads %d %d' % ((8, 24) if tier == 'thorough' else (4, 9)), 'OK drawn>=1 distinct=1')
     yield ('frozen-sm9-rng-stats', 's9_rngstats %d' % n_, 'OK in-range=1 distinct=1 bits-ok=1')
 
 
